@@ -44,21 +44,23 @@ def record(b, o, t, cart, f, partial_first=False, with_pref=False):
             pg = fg.get_position_grid()
             nB = fg.get_b_N()
             nP = len(pg)
-            pA = pg.get_adjacency_of_position_grid().tocoo()
-            pB = pg.get_borders_of_position_grid().tocoo()
-            pD = pg.get_distances_of_position_grid().tocoo()
+            pA = pg.get_adjacency_of_position_grid().tocoo().copy()       # every answer is snapshotted when the call returns
+            pB = pg.get_borders_of_position_grid().tocoo().copy()
+            pD = pg.get_distances_of_position_grid().tocoo().copy()
             pV = np.asarray(pg.get_all_position_volumes(), dtype=float)
             rV = np.asarray(fg.b_rotations.get_spherical_voronoi().get_voronoi_volumes(), dtype=float)
             if nB > 1:
-                rA = fg.b_rotations.get_voronoi_adjacency().tocoo()
-                rB = fg.b_rotations.get_cell_borders().tocoo()
-                rD = fg.b_rotations.get_center_distances().tocoo()
+                rA = fg.b_rotations.get_voronoi_adjacency().tocoo().copy()
+                rB = fg.b_rotations.get_cell_borders().tocoo().copy()
+                rD = fg.b_rotations.get_center_distances().tocoo().copy()
             else:
                 from scipy.sparse import coo_array
                 rA = rB = rD = coo_array((1, 1))
-            FA = fg.get_full_adjacency().tocoo()
-            FB = fg.get_full_borders().tocoo()
-            FD = fg.get_full_distances().tocoo()
+            FA = fg.get_full_adjacency().tocoo().copy()
+            FB = fg.get_full_borders().tocoo().copy()
+            FD = fg.get_full_distances().tocoo().copy()
+            if not partial_first:     # asked again after the other matrix: the later answer is the one that is checked
+                FB = fg.get_full_borders().tocoo().copy()
             V = np.asarray(fg.get_total_volumes(), dtype=float)
             V = np.asarray(fg.get_total_volumes(), dtype=float)        # asked twice: the second answer is the one that is checked
     except Exception as ex:
